@@ -18,6 +18,10 @@ package kgo
 //@   modifies object(r)
 //@ func (c context.Context) Value(key any) (v any)
 //@   pure
+// a Logger only logs: it does not write the client's memory (assumed of user-supplied loggers as well)
+//@ func (l Logger) Log(level LogLevel, msg string, keyvals ...any)
+//@   trusted
+//@   modifies nothing
 //@ extern func (vs *kversion.Versions) LookupMaxKeyVersion(k int16) (v int16, ok bool)
 //@   pure
 //@ extern func (vs *kversion.Versions) HasKey(k int16) (ok bool)
@@ -48,6 +52,7 @@ package kgo
 //@   site call SetVersion#0 assert [not-above-user-max] reached($LookupMaxKeyVersion0_0) ==> arg0 <= $LookupMaxKeyVersion0_0
 //@   site call SetVersion#0 assert [tight] arg0 == $MaxVersion0 || ($maxVersion1 >= 0 && arg0 == $maxVersion1)
 //@        || ($assert1_1 && $assert1_0.pinMax && arg0 == $assert1_0.max) || (reached($LookupMaxKeyVersion0_0) && arg0 == $LookupMaxKeyVersion0_0)
+//@   site call SetVersion#0 assert [broker-range-consulted-on-every-path] reached($maxVersion1) && reached($minVersion0)
 //@   site call SetVersion#0 assert [not-below-broker-min] $minVersion0 >= 0 ==> arg0 >= $minVersion0
 //@   site call SetVersion#0 assert [not-below-pinned-min] ($assert1_1 && $assert1_0.pinMin && $assert1_0.min >= 0) ==> arg0 >= $assert1_0.min
 //@   site call SetVersion#0 assert [not-below-user-min] reached($LookupMaxKeyVersion1_0) ==> arg0 >= $LookupMaxKeyVersion1_0
@@ -63,15 +68,23 @@ package kgo
 // is written with (every iteration of the downgrade loop at `start:`) is never negative, never above the user's
 // MaxVersions entry for ApiVersions when one is configured (first two tries), 0 on the third try, and otherwise
 // at most 4; a broker-driven downgrade only ever lowers it. The broker's advertised ranges are stored unchanged.
+//@ func logID(id int32) (s string)
+//@   prop C21
+//@   modifies nothing
+
 //@ func (cxn *brokerCxn) requestAPIVersions(tries int) (err error)
 //@   prop C21
 //@   loop 0 invariant [non-negative] 0 <= maxVersion
 //@   loop 0 invariant [third-try] tries >= 3 ==> maxVersion == 0
 //@   loop 0 invariant [user-max] ($LookupMaxKeyVersion0_1 && $LookupMaxKeyVersion0_0 >= 0) ==> maxVersion <= $LookupMaxKeyVersion0_0
 //@   loop 0 invariant [client-max] !($LookupMaxKeyVersion0_1 && $LookupMaxKeyVersion0_0 >= 0) ==> maxVersion <= 4
+//@   site call writeRequest#0 assert [written-request-is-req] sameobject(arg3, req)
+//@   site call writeRequest#0 assert [written-with-the-current-version] req.Version == maxVersion
 //@   site store Version#0 assert [api-versions-non-negative] 0 <= val
 //@   site store Version#0 assert [api-versions-third-try-v0] tries >= 3 ==> val == 0
 //@   site store Version#0 assert [api-versions-at-most-user-max] ($LookupMaxKeyVersion0_1 && $LookupMaxKeyVersion0_0 >= 0) ==> val <= $LookupMaxKeyVersion0_0
 //@   site store Version#0 assert [api-versions-at-most-client-max] !($LookupMaxKeyVersion0_1 && $LookupMaxKeyVersion0_0 >= 0) ==> val <= 4
+//@   ensures [ranges-stored-on-every-success] err == nil ==> reached($storeVersions0)
+//@   site call storeVersions#0 assert [stores-the-table-built-from-this-response] arg1 == v && v == $newBrokerVersions0
 //@   site mapupdate int16#0 assert [stores-broker-max] val == key.MaxVersion && mapkey == key.ApiKey
 //@   site mapupdate int16#1 assert [stores-broker-min] val == key.MinVersion && mapkey == key.ApiKey
